@@ -7,6 +7,8 @@ import (
 	"errors"
 	"fmt"
 	"strings"
+	"sync"
+	"sync/atomic"
 	"time"
 
 	"github.com/uhn/ggql/pkg/ggql"
@@ -63,6 +65,22 @@ type Mutation {
 }
 `
 
+// MethodCalls counts invocations of the argument-taking methods, per method name (the resolver call log of the zoo).
+var MethodCalls sync.Map
+
+func called(name string) {
+	v, _ := MethodCalls.LoadOrStore(name, new(int64))
+	atomic.AddInt64(v.(*int64), 1)
+}
+
+// CallCount reads a method's invocation count.
+func CallCount(name string) int64 {
+	if v, has := MethodCalls.Load(name); has {
+		return atomic.LoadInt64(v.(*int64))
+	}
+	return 0
+}
+
 // Root is the root object.
 type Root struct {
 	Query    *Query
@@ -80,10 +98,10 @@ type Query struct {
 }
 
 // Hello greets.
-func (q *Query) Hello(name string) string { return "hello " + name }
+func (q *Query) Hello(name string) string { called("Query.Hello"); return "hello " + name }
 
 // Add adds with Go ints.
-func (q *Query) Add(a int, b int) int { return a + b }
+func (q *Query) Add(a int, b int) int { called("Query.Add"); return a + b }
 
 // Flag returns a value and an error.
 func (q *Query) Flag(on bool) (string, error) {
@@ -103,6 +121,7 @@ func (q *Query) Pick(i int32) *Item {
 
 // Label has a required and a defaulted argument.
 func (q *Query) Label(prefix string, upper bool) string {
+	called("Query.Label")
 	s := prefix + q.Name
 	if upper {
 		s = strings.ToUpper(s)
@@ -140,6 +159,7 @@ type Item struct {
 
 // Label is a method with two arguments.
 func (i *Item) Label(prefix string, upper bool) string {
+	called("Item.Label")
 	s := prefix + i.ID
 	if upper {
 		s = strings.ToUpper(s)
